@@ -3,7 +3,7 @@ reference decoder is available in this family, so agreement with the
 architecture manual is NOT decided)."""
 import ast
 
-from ..core import norm
+from ..core import norm, try_const as _tc8
 from .. import relocs
 
 ARCHS_QUICK = ["arm", "arm:thumb", "riscv", "riscv:rvc", "x86_64", "msp430", "avr", "m68k", "mips", "or1k", "xtensa", "microblaze"]
@@ -125,6 +125,7 @@ def run(ctx):
     _arm_reference(ctx)
     _rex_emission(ctx)
     _transforms(ctx)
+    _arm_shift_amounts(ctx)
     arm_addressing_bits(ctx, "C08.R9")
 
 
@@ -311,6 +312,7 @@ TRANSFORM_REFERENCE = {
     ("ppci/arch/avr/instructions.py", "PatchedBy16"): {v: v - 16 for v in range(16, 32)},
     ("ppci/arch/msp430/instructions.py", "RegConstTransform"): {v: r for v, (r, a) in _CG.items()},
     ("ppci/arch/msp430/instructions.py", "AsConstTransform"): {v: a for v, (r, a) in _CG.items()},
+    ("ppci/arch/arm/arm_instructions.py", "RightShiftAmount"): {v: v % 32 for v in range(1, 33)},   # ARM ARM A8.4.1 DecodeImmShift
     ("ppci/arch/xtensa/instructions.py", "Shift1"): {v: v // 2 for v in range(0, 512, 2)},
     ("ppci/arch/xtensa/instructions.py", "Shift2"): {v: v // 4 for v in range(0, 1024, 4)},
     ("ppci/arch/xtensa/instructions.py", "Add7Transform"): {v: v - 7 for v in range(7, 23)},
@@ -378,6 +380,54 @@ def _transforms(ctx):
                         continue
                     ctx.ob("C08.R10", site, "backwards(%d) gives the operand value %d back (the disassembler prints what was assembled)" % (got, v), back == v, construct="transform-back:%s:%d" % (cls.name, v), node=bw[0], detail="backwards(%d) = %r" % (got, back))
     ctx.need(found >= 8, "Transform subclasses under ppci/arch: %d found, 8 confirmed by reading" % found)
+
+
+def _arm_shift_amounts(ctx):
+    """R11.  ARM ARM A8.4.1 DecodeImmShift: for LSR and ASR the 5-bit field holds the amount 1..31, and 0 means 32; `lsr #0` does not
+    exist (an assembler turns it into lsl #0).  For LSL the field is the amount 0..31.  A constructor that stores the printed amount
+    of lsr/asr unchanged prints `lsr 0` for bytes that shift by 32."""
+    from .. import minieval
+    ctx.rule("C08.R11", "ARM shifted register operands: `lsr n` / `asr n` accept n in 1..32 and store n mod 32 (0 encodes 32), everything else is rejected; `lsl n` stores n", floor=5)
+    rel = "ppci/arch/arm/arm_instructions.py"
+    mod = ctx.project.module(rel)
+    env0 = minieval.module_env(mod.tree)
+    for cname, kind in (("ShiftLsr", "right"), ("ShiftAsr", "right"), ("ShiftLsl", "left")):
+        cls = ctx.cls(rel, cname)
+        site = "%s:%s" % (rel, cname)
+        pat = [n.value for n in cls.body if isinstance(n, ast.Assign) and norm(n.targets[0]) == "patterns" and isinstance(n.value, ast.Dict)]
+        ctx.need(len(pat) == 1, "%s: patterns not found" % cname)
+        items = {_tc8(k): v for k, v in zip(pat[0].keys, pat[0].values)}
+        v = items.get("shift_imm")
+        ctx.need(v is not None, "%s: no shift_imm pattern" % cname)
+        if kind == "left":
+            ctx.ob("C08.R11", site, "`lsl n` stores n itself in shift_imm", isinstance(v, ast.Name) and v.id == "n", construct="lsl-raw", detail=norm(v))
+            continue
+        if not (isinstance(v, ast.Call) and len(v.args) == 1 and norm(v.args[0]) == "n"):
+            ctx.ob("C08.R11", site, "the amount of `%s` goes through a transform that maps 32 to 0 and rejects 0" % cname[5:].lower(), False, construct="shift-transform:" + cname, detail="shift_imm: %s" % norm(v))
+            continue
+        tcls = ctx.project.cls(rel, norm(v.func), optional=True)
+        fw = [f for f in (tcls.body if tcls is not None else []) if isinstance(f, ast.FunctionDef) and f.name == "forwards"]
+        bw = [f for f in (tcls.body if tcls is not None else []) if isinstance(f, ast.FunctionDef) and f.name == "backwards"]
+        ctx.need(len(fw) == 1, "%s: forwards() of %s not found" % (cname, norm(v.func)))
+        bad = []
+        try:
+            for amount in range(-2, 36):
+                try:
+                    got = minieval.call(fw[0], [amount], dict(env0))
+                except minieval.Rejected:
+                    got = None
+                want = amount % 32 if 1 <= amount <= 32 else None
+                if got != want:
+                    bad.append((amount, got))
+                if want is not None and got == want and bw:
+                    back = minieval.call(bw[0], [got], dict(env0))
+                    if back != amount:
+                        bad.append((amount, "backwards(%r) = %r" % (got, back)))
+        except minieval.Undecidable as e:
+            ctx.undecided("C08.R11", site, "transform of %s: %s" % (cname, e))
+            continue
+        ctx.ob("C08.R11", site, "`%s n`: 1..31 stored as n, 32 stored as 0, anything else rejected; the decoder maps 0 back to 32" % cname[5:].lower(), not bad, construct="shift-amount:" + cname, detail="(amount, stored): %s" % bad[:5])
+        ctx.ob("C08.R11", site, "the transform has a backwards() for the disassembler", bool(bw), construct="shift-backwards:" + cname)
 
 
 def arm_addressing_bits(ctx, rid):
